@@ -12,7 +12,8 @@ from tally import expr_parser as ep
 O = Oracle()
 TXN = {'description': 'Netflix.COM 0012 ab', 'amount': 15.5, 'date': date(2025, 3, 9), 'field': {'kind': 'Wire', 'code': 'AB-12-cd', 'pad': '  x  '}, 'source': 'Amex'}
 ROWS = {'orders': [{'id': '77', 'item': 'Cable', 'qty': 2, 'amount': 15.5}, {'id': '78', 'item': 'Mouse', 'qty': 1, 'amount': 20.0}, {'id': '79', 'item': 'cable', 'qty': 5, 'amount': 3.0}],
-        'refunds': [{'id': '78', 'amount': 20.0}, {'id': '90', 'amount': 15.5}], 'empty': []}
+        'refunds': [{'id': '78', 'amount': 20.0}, {'id': '90', 'amount': 15.5}], 'empty': [],
+        'dated': [{'day': date(2025, 3, 10), 'iso': '2025-03-10', 'kind': 'ach'}, {'day': date(2025, 3, 9), 'iso': '2025-03-09', 'kind': 'WIRE'}]}
 VARS = {'big': True, 'lim': 10, 'label': 'Net', 'zero': 0}
 
 
@@ -157,6 +158,13 @@ TABLE = [
     ('next(lim.qty for lim in orders) == 2 and lim == 10', True), ('next((o.qty for o in orders for lim in refunds if lim.id == "78"), 0) == 2 and lim == 10', True), ('[big.qty for big in orders]', [2, 1, 5]),
     ('[R.qty for r in orders]', [2, 1, 5]), ('len([label for label in orders]) == 3 and label == "net"', True),
     ('[r.item for r in orders if r.item == "CABLE"]', ['Cable', 'cable']), ('any(r.item == "MOUSE" for r in orders)', True), ('"cable" in [r.item for r in orders]', True),
+    # membership in a list is any(x == e ...) with the == of the language: letter case ignored, a date equals its ISO string
+    ('"MOUSE" in [r.item for r in orders]', True), ('"mouse" in [r.item for r in orders]', True), ('"mouse" not in [r.item for r in orders]', False),
+    ('"Mouse" not in [r.item for r in orders]', False), ('"pen" in [r.item for r in orders]', False), ('"pen" not in [r.item for r in orders]', True),
+    ('"2025-03-09" in [r.day for r in dated]', True), ('date in [r.iso for r in dated]', True), ('date not in [r.iso for r in dated]', False), ('"2025-03-11" in [r.day for r in dated]', False),
+    ('date in [r.day for r in dated]', True), ('any(r.day == "2025-03-09" for r in dated)', True),
+    ('"MOUSE" in [r.item for r in orders] and any(r.item == "MOUSE" for r in orders)', True), ('2 in [r.qty for r in orders]', True), ('9 in [r.qty for r in orders]', False),
+    ('"a" in [r.id for r in empty]', False), ('field.kind in [r.kind for r in dated]', True), ('field.kind not in [r.kind for r in dated]', False),
 ]
 
 
